@@ -74,6 +74,8 @@ pub struct Ops {
     pub json_write: fn(&[f64], &mut SimWriter<'_>) -> IoResult<()>,
     pub json_from_str: fn(&str, &[f64]) -> IoResult<Outcome>,
     pub json_from_slice: fn(&[u8], &[f64]) -> IoResult<Outcome>,
+    /// `Deserialize::deserialize_in_place` into a value that already exists (built from the second argument)
+    pub json_in_place: fn(&str, &[f64], &[f64]) -> IoResult<Outcome>,
     pub json_from_reader: fn(&mut SimReader<'_>, &[f64]) -> IoResult<Outcome>,
     pub json_via_value: fn(&[f64]) -> IoResult<Outcome>,
     pub ron_string: fn(&[f64], RonStyle) -> IoResult<String>,
@@ -162,6 +164,13 @@ fn json_from_str<X: Case>(text: &str, expect: &[f64]) -> IoResult<Outcome> {
 }
 fn json_from_slice<X: Case>(bytes: &[u8], expect: &[f64]) -> IoResult<Outcome> {
     serde_json::from_slice::<X>(bytes).map(|x| outcome(x, expect)).map_err(|e| e.to_string())
+}
+fn json_in_place<X: Case>(text: &str, place: &[f64], expect: &[f64]) -> IoResult<Outcome> {
+    let mut x = X::build(place);
+    let mut de = serde_json::Deserializer::from_str(text);
+    serde::Deserialize::deserialize_in_place(&mut de, &mut x).map_err(|e| e.to_string())?;
+    de.end().map_err(|e| e.to_string())?;
+    Ok(outcome(x, expect))
 }
 fn json_from_reader<X: Case>(r: &mut SimReader<'_>, expect: &[f64]) -> IoResult<Outcome> {
     serde_json::from_reader::<_, X>(r).map(|x| outcome(x, expect)).map_err(|e| e.to_string())
@@ -596,6 +605,7 @@ const fn ops<X: Case>() -> Ops {
         json_write: json_write::<X>,
         json_from_str: json_from_str::<X>,
         json_from_slice: json_from_slice::<X>,
+        json_in_place: json_in_place::<X>,
         json_from_reader: json_from_reader::<X>,
         json_via_value: json_via_value::<X>,
         ron_string: ron_string::<X>,
